@@ -812,7 +812,8 @@ def classify(ctx, spec, infos, impl):
 
 
 def run(ctx):
-    ctx.build_with_translator(FILES)
+    ctx.build_with_translator(FILES, extra_files=['C07R_Model.v', 'C07R_Proofs.v', 'C07R_Properties.v'],
+                              extra_obligation_files=['C07R_Properties.v'])   # shape parameters over R
     ctx.cov['rule'] = (
         'random images 1..10 px a side on the 1/8 lattice (integers, dyadics, ramps, sparse, blobs, outliers, '
         'NaN/inf) x six pixel aperture classes and their sky forms through a TAN WCS x 1..4 positions '
